@@ -284,6 +284,71 @@ func (a *originAnalysis) callOrigins(call *ssa.Call, idx int, seen map[ssa.Value
 	return out
 }
 
+// boundToGlobal: for an origin that is a receiver or parameter of a module function, does some (transitive, up to
+// 4 levels) static caller in the library bind it to memory that originates from a package-level variable?
+// Returns that global origin and the calling function. Initialisers are not callers in this sense.
+func (a *originAnalysis) boundToGlobal(o string, depth int, seen map[string]bool) (string, string) {
+	if depth > 4 || seen[o] {
+		return "", ""
+	}
+	seen[o] = true
+	var fname, pname string
+	isRecv := false
+	switch {
+	case strings.HasPrefix(o, "recv:"):
+		fname, isRecv = strings.TrimPrefix(o, "recv:"), true
+	case strings.HasPrefix(o, "param:"):
+		rest := strings.TrimPrefix(o, "param:")
+		i := strings.LastIndex(rest, ".")
+		if i < 0 {
+			return "", ""
+		}
+		fname, pname = rest[:i], rest[i+1:]
+	default:
+		return "", ""
+	}
+	c := a.c
+	for _, caller := range c.Funcs {
+		if !inLib(caller) || caller.Name() == "init" && caller.Synthetic != "" {
+			continue
+		}
+		for _, b := range caller.Blocks {
+			for _, in := range b.Instrs {
+				call, ok := in.(ssa.CallInstruction)
+				if !ok {
+					continue
+				}
+				callee := call.Common().StaticCallee()
+				if callee == nil || fnName(callee) != fname {
+					continue
+				}
+				idx := -1
+				if isRecv {
+					idx = 0
+				} else {
+					for i, p := range callee.Params {
+						if p.Name() == pname {
+							idx = i
+						}
+					}
+				}
+				if idx < 0 || idx >= len(call.Common().Args) {
+					continue
+				}
+				for ao := range a.origins(call.Common().Args[idx], map[ssa.Value]bool{}) {
+					if strings.HasPrefix(ao, "global:") {
+						return ao, fnName(caller)
+					}
+					if g, via := a.boundToGlobal(ao, depth+1, seen); g != "" {
+						return g, via
+					}
+				}
+			}
+		}
+	}
+	return "", ""
+}
+
 func (c *Ctx) observerRoots() []*ssa.Function {
 	return []*ssa.Function{
 		c.method(pkgDriver, "Base", "Render"), c.method(pkgDriver, "Base", "RenderParam"),
@@ -383,6 +448,9 @@ func rulePURG(c *Ctx, r *Report) {
 			for o := range os {
 				if strings.HasPrefix(o, "global:") {
 					r.bad(rule, fnName(fn)+"|"+w.what, c.instrPos(w.in), fmt.Sprintf("%s writes package-level state outside initialisation (%s, origin %s): concurrent calls race and results depend on call history", fnName(fn), w.what, o))
+				} else if g, via := oa.boundToGlobal(o, 0, map[string]bool{}); g != "" {
+					// the written object is an argument or the receiver: some caller passes a package-level object
+					r.bad(rule, fnName(fn)+"|"+w.what, c.instrPos(w.in), fmt.Sprintf("%s writes through %s (%s), and %s passes the package-level %s there: state shared by all calls is modified outside initialisation — concurrent calls race and results depend on call history", fnName(fn), strings.SplitN(o, ":", 2)[0], w.what, via, strings.TrimPrefix(g, "global:")))
 				}
 			}
 		}
